@@ -1,5 +1,8 @@
 //! Obligations, one module per property.
 pub mod c07;
+pub mod c14;
+pub mod c15;
+pub mod gen_error_variants;
 
 /// Shortest round-trip decimal literal of a float in a spelling the SCPI lexer accepts as <NRf>.
 #[cfg(not(kani))]
